@@ -54,7 +54,7 @@ def sc_usize(v):
 
 def deref_vec(x):
     """&Vec / &mut Vec / Vec -> VecV"""
-    if type(x) is Ref:
+    while type(x) is Ref:
         x = x.cont[x.key]
     if type(x) is VecV:
         return x
@@ -240,6 +240,25 @@ def m_to_bits(it, args, fr, callee):
     return Sc('u64', it.smt.fp_to_bits(args[0].v))
 
 
+import ctypes
+import ctypes.util
+_libm = ctypes.CDLL(ctypes.util.find_library('m') or 'libm.so.6')
+
+
+def _libm1(fname):
+    f = getattr(_libm, fname)
+    f.restype = ctypes.c_double
+    f.argtypes = [ctypes.c_double]
+    return lambda x: f(x)
+
+
+def _libm2(fname):
+    f = getattr(_libm, fname)
+    f.restype = ctypes.c_double
+    f.argtypes = [ctypes.c_double, ctypes.c_double]
+    return lambda x, y: f(x, y)
+
+
 def _f1(name, conc, sym):
     def f(it, args, fr, callee):
         x = args[0].v
@@ -296,11 +315,11 @@ for _n, _c, _s in [
     ('ceil', _neg0(_pyceil), lambda it, x: z3.fpRoundToIntegral(z3.RTP(), x)),
     ('trunc', _neg0(_pytrunc), lambda it, x: z3.fpRoundToIntegral(z3.RTZ(), x)),
     ('round', _neg0(_pyround), lambda it, x: z3.fpRoundToIntegral(z3.RNA(), x)),
-    ('sin', math.sin, _uf1('sin')), ('cos', math.cos, _uf1('cos')), ('tan', math.tan, _uf1('tan')),
-    ('asin', math.asin, _uf1('asin')), ('acos', math.acos, _uf1('acos')), ('atan', math.atan, _uf1('atan')),
-    ('sinh', math.sinh, _uf1('sinh')), ('cosh', math.cosh, _uf1('cosh')), ('tanh', math.tanh, _uf1('tanh')),
-    ('ln', lambda x: math.log(x) if x > 0 else (float('-inf') if x == 0 else float('nan')), _uf1('ln')),
-    ('exp', math.exp, _uf1('exp')), ('log10', math.log10, _uf1('log10')), ('log2', math.log2, _uf1('log2')),
+    ('sin', _libm1('sin'), _uf1('sin')), ('cos', _libm1('cos'), _uf1('cos')), ('tan', _libm1('tan'), _uf1('tan')),
+    ('asin', _libm1('asin'), _uf1('asin')), ('acos', _libm1('acos'), _uf1('acos')), ('atan', _libm1('atan'), _uf1('atan')),
+    ('sinh', _libm1('sinh'), _uf1('sinh')), ('cosh', _libm1('cosh'), _uf1('cosh')), ('tanh', _libm1('tanh'), _uf1('tanh')),
+    ('ln', _libm1('log'), _uf1('ln')),
+    ('exp', _libm1('exp'), _uf1('exp')), ('log10', _libm1('log10'), _uf1('log10')), ('log2', _libm1('log2'), _uf1('log2')),
 ]:
     MODELS['std::f64::' + _n] = MODELS['core::f64::' + _n] = MODELS['f64::' + _n] = _f1(_n, _c, _s)
 
@@ -327,7 +346,7 @@ def _pypow(x, y):
         return float('nan')
 
 
-for _n, _c in [('powf', _pypow), ('atan2', math.atan2), ('hypot', math.hypot), ('log', lambda x, b: math.log(x) / math.log(b))]:
+for _n, _c in [('powf', _libm2('pow')), ('atan2', _libm2('atan2')), ('hypot', _libm2('hypot'))]:
     MODELS['std::f64::' + _n] = MODELS['core::f64::' + _n] = MODELS['f64::' + _n] = _f2uf(_n, _c)
 
 
@@ -337,6 +356,8 @@ def m_powi(it, args, fr, callee):
 
 
 def _fminmax(is_min):
+    """Rust f64::min/max (IEEE minNum/maxNum).  For equal operands (incl. +0 / -0, whose order std leaves unspecified) the
+    x86-64 code rustc emits returns the FIRST operand; measured on the real build and validated by the concrete self test."""
     def f(it, args, fr, callee):
         x, y = args[0].v, args[1].v
         if isinstance(x, int) and isinstance(y, int):
@@ -346,16 +367,13 @@ def _fminmax(is_min):
             if fy != fy:
                 return Sc('f64', x)
             if is_min:
-                return Sc('f64', x if fx < fy else y) if fx != fy else Sc('f64', x if (x >> 63) else y)
-            return Sc('f64', x if fx > fy else y) if fx != fy else Sc('f64', y if (x >> 63) else x)
+                return Sc('f64', y if fy < fx else x)
+            return Sc('f64', y if fy > fx else x)
         X, Y = it.smt.fp_lift(x), it.smt.fp_lift(y)
-        # Rust f64::min/max: IEEE minNum/maxNum; the sign of zero for min(+0,-0) is unspecified -> uninterpreted choice
         if is_min:
-            r = z3.If(z3.fpIsNaN(X), Y, z3.If(z3.fpIsNaN(Y), X, z3.If(z3.fpLT(X, Y), X, z3.If(z3.fpLT(Y, X), Y,
-                      z3.If(z3.fpIsNegative(X), X, Y)))))
+            r = z3.If(z3.fpIsNaN(X), Y, z3.If(z3.fpIsNaN(Y), X, z3.If(z3.fpLT(Y, X), Y, X)))
         else:
-            r = z3.If(z3.fpIsNaN(X), Y, z3.If(z3.fpIsNaN(Y), X, z3.If(z3.fpGT(X, Y), X, z3.If(z3.fpGT(Y, X), Y,
-                      z3.If(z3.fpIsNegative(X), Y, X)))))
+            r = z3.If(z3.fpIsNaN(X), Y, z3.If(z3.fpIsNaN(Y), X, z3.If(z3.fpGT(Y, X), Y, X)))
         return Sc('f64', r)
     return f
 
@@ -653,7 +671,11 @@ def m_try_from(it, args, fr, callee):
 # =================================================================================================
 def _deref_arg(x):
     if type(x) is Ref:
-        return x.cont[x.key]
+        x = x.cont[x.key]
+        # &&T (comparison operators on references)
+        while type(x) is Ref and type(x.cont[x.key]) in (VecV, BoxV, Agg, Ref):
+            x = x.cont[x.key]
+        return x
     return x
 
 
@@ -983,7 +1005,7 @@ def m_vec_resize(it, args, fr, callee):
         del b[n:]
     else:
         for _ in range(n - len(b)):
-            b.append(copy_val(args[2]))
+            b.append(clone_val(args[2]))
     return UNIT
 
 
@@ -1037,7 +1059,7 @@ def m_from_elem(it, args, fr, callee):
     n = it.concretize(args[1], 'vec![x; n] length')
     if n > 50_000_000:
         raise PanicReached('vec![_; %d] (capacity overflow / allocation failure)' % n, 'panic')
-    return VecV([copy_val(args[0]) for _ in range(n)])
+    return VecV([clone_val(args[0]) for _ in range(n)])
 
 
 @model('std::slice::into_vec', 'slice::into_vec', 'alloc::slice::into_vec')
@@ -1059,10 +1081,18 @@ def m_box_uninit(it, args, fr, callee):
     return BoxV(UNINIT)
 
 
+@model('Box::new_uninit', 'std::boxed::Box::new_uninit')
+def m_box_new_uninit(it, args, fr, callee):
+    # Box<MaybeUninit<T>>: union MaybeUninit { uninit: (), value: ManuallyDrop<MaybeDangling<T>> }
+    return BoxV(Agg('MaybeUninit', None, [UNIT, Agg('ManuallyDrop', None, [Agg('MaybeDangling', None, [UNINIT])])]))
+
+
 @model('Box::write', 'std::boxed::Box::write', 'std::boxed::box_assume_init_into_vec_unsafe', 'box_assume_init_into_vec_unsafe')
 def m_box_write(it, args, fr, callee):
     if 'into_vec' in callee:
         arr = args[0].cell[0]
+        if type(arr) is Agg and arr.ty == 'MaybeUninit':
+            arr = arr.fields[1].fields[0].fields[0]
         return VecV(list(arr.fields))
     args[0].cell[0] = args[1]
     return args[0]
@@ -1794,7 +1824,7 @@ def map_insert(it, m, key, val, fr):
 
 
 def _deref_map(x):
-    if type(x) is Ref:
+    while type(x) is Ref:
         x = x.cont[x.key]
     if type(x) is MapV:
         return x
@@ -2001,9 +2031,15 @@ def m_clone(it, args, fr, callee):
     return NotImplemented
 
 
+def _deref_all(x):
+    while type(x) is Ref:
+        x = x.cont[x.key]
+    return x
+
+
 @tmodel('*', 'PartialEq', 'eq')
 def m_partial_eq(it, args, fr, callee):
-    a, b = _deref_arg(args[0]), _deref_arg(args[1])
+    a, b = _deref_all(args[0]), _deref_all(args[1])
     if type(a) is Sc and type(b) is Sc:
         return it.fbinop('Eq', a, b) if a.t == 'f64' else it.binop('Eq', a, b)
     if type(a) is StrV and type(b) is StrV:
@@ -2013,7 +2049,7 @@ def m_partial_eq(it, args, fr, callee):
 
 @tmodel('*', 'PartialEq', 'ne')
 def m_partial_ne(it, args, fr, callee):
-    a, b = _deref_arg(args[0]), _deref_arg(args[1])
+    a, b = _deref_all(args[0]), _deref_all(args[1])
     if type(a) is Sc and type(b) is Sc:
         return it.fbinop('Ne', a, b) if a.t == 'f64' else it.binop('Ne', a, b)
     return NotImplemented
@@ -2276,3 +2312,71 @@ def m_res_branch(it, args, fr, callee):
 @tmodel('Result', 'FromResidual', 'from_residual')
 def m_res_from_residual(it, args, fr, callee):
     return args[0]
+
+
+@model('HashSet::is_empty', 'HashMap::is_empty', 'BTreeMap::is_empty', 'BTreeSet::is_empty')
+def m_hash_is_empty(it, args, fr, callee):
+    return Sc('bool', int(len(_deref_map(args[0]).items) == 0))
+
+
+@model('HashSet::iter', 'HashMap::keys', 'BTreeSet::iter')
+def m_hashset_iter(it, args, fr, callee):
+    m = _deref_map(args[0])
+    order = list(range(len(m.items)))
+    perm = getattr(it, 'hash_order', None)
+    if perm is not None:
+        order = perm(order)
+    return IterV((Ref(_KeyProxy(m, i), 0) for i in order), 'hashset.iter')
+
+
+class _KeyProxy(object):
+    __slots__ = ('m', 'i')
+
+    def __init__(self, m, i):
+        self.m, self.i = m, i
+
+    def __getitem__(self, k):
+        return self.m.items[self.i][0]
+
+    def __setitem__(self, k, v):
+        raise Unsupported('write through a hash set element reference')
+
+    def __len__(self):
+        return 1
+
+
+@tmodel('HashSet', 'Extend', 'extend')
+def m_hashset_extend(it, args, fr, callee):
+    m = _deref_map(args[0])
+    for x in to_iter(it, args[1], fr).gen:
+        if map_find(it, m, x, fr) < 0:
+            m.items.append((x, UNIT))
+    return UNIT
+
+
+@tmodel('HashMap', 'Extend', 'extend')
+def m_hashmap_extend(it, args, fr, callee):
+    m = _deref_map(args[0])
+    for x in to_iter(it, args[1], fr).gen:
+        map_insert(it, m, x.fields[0], x.fields[1], fr)
+    return UNIT
+
+
+@tmodel('HashSet', 'Clone', 'clone')
+@tmodel('HashMap', 'Clone', 'clone')
+def m_hash_clone(it, args, fr, callee):
+    return clone_val(_deref_map(args[0]))
+
+
+@model('std::ops::RangeInclusive::new', 'RangeInclusive::new', 'core::ops::RangeInclusive::new')
+def m_range_incl_new(it, args, fr, callee):
+    return Agg('RangeInclusive', None, [args[0], args[1], Sc('bool', 0)])
+
+
+@model('core::slice::reverse', 'slice::reverse')
+def m_slice_reverse(it, args, fr, callee):
+    s = as_slice(args[0])
+    st = it.concretize(Sc('usize', s.start), 'slice start')
+    ln = it.concretize(Sc('usize', s.len), 'slice length')
+    s.buf[st:st + ln] = s.buf[st:st + ln][::-1]
+    return UNIT
